@@ -51,6 +51,7 @@ THEOREMS = {
     "C04_model_is_source_sdc_add_observations": "the translation of the whole method SparseDrugCombo._add_observations (>= 0 check, astype(float32), np.clip with the bounds written in the call, logit, NaN check, the zip loop calling the translated _update on dd[0], dd[1] for rows with mask) equals the model sdc_inner on every reachable wrapped object: same error tag, or the object holding the model's new training rows",
     "C04_model_is_source_sdc_add": "translated add_observations around the translated SparseDrugCombo._add_observations = the model sdc_add",
     "C04_model_is_source_create_single_treatment_effect_map": "the translation of the whole function data.create_single_treatment_effect_map (arity check, single-treatment mask, the two loops over np.unique, control entry 1.0, `continue` when no single-agent row, np.mean) run on the three columns of any row list equals the model single_effect_map (the dict as the list of its entries in insertion order = sorted by key); ValueError (tag 4) when arity < 2",
+    "C04_model_is_source_create_single_treatment_effect_map_c20": "the same translation, instantiated at exact rationals (1, qmean), equals C20's column-level model Synergy.effect_map (used by calculate_synergy / create_single_treatment_effect_array) under the hypotheses that treatment_ids is an n x arity array and sample_ids / observation have n entries - a fact about every call with aligned arrays, NOT about misaligned ones (numpy's IndexError, which C20's model covers and the translation's mask primitive does not); the arity ValueError is tag 4 here, 1 in C20",
     "C04_model_is_source_interaction_add_observations": "the translation of the whole method SparseDrugComboInteraction._add_observations (arity != 2, >= 0 check, single_effect_lookup.update(translated create_single_treatment_effect_map), combo_mask = controls per row == 0, the five masked columns, logit(astype(float32)), NaN check, the zip loop calling the translated _update) equals the interaction model int_inner with ALL THREE repair switches true, for every lookup, every reachable wrapped object, arity and row list",
     "C04_model_is_source_interaction_add": "translated add_observations around the translated SparseDrugComboInteraction._add_observations = the model int_add true true true",
     "C04_source_variant_unique": "the translation determines the model's switches: (fixed_mask, guard_neg, guard_nan) = (true, true, true) is the ONLY setting for which the interaction model equals the translated source on all inputs (three vm_compute witnesses)",
